@@ -1,5 +1,5 @@
 (* Check/C09Check.v -- correspondence and oracle for C09 (editTimestamps, appendTier). *)
-From PraatIO Require Export Check.Common.
+From PraatIO Require Export Check.Common Textgrid.TgModel.
 From PraatIO Require Import Tier.CtorProofs Tier.EraseProofs Tier.EditProofs.
 
 Inductive C09case :=
@@ -7,7 +7,10 @@ Inductive C09case :=
 | EditP (t : ptier) (o : Z) (mode : repmode) (out : res ptier) (printed : bool)
 | EditRT (t : itier) (o : Z) (out : res itier)        (* edit(+o) then edit(-o), silence *)
 | AppendI (A B : itier) (out : res itier)
-| AppendP (A B : ptier) (out : res ptier).
+| AppendP (A B : ptier) (out : res ptier)
+(* Textgrid.editTimestamps / Textgrid.appendTextgrid: the whole textgrid that came back *)
+| TgEditC (g : tg) (o : Z) (mode : repmode) (out : res tg)
+| TgAppendC (A B : tg) (only : bool) (out : res tg).
 
 Definition edit_rt (t : itier) (o : Z) : res itier :=
   do t1 <- edit_i t o RSilence; edit_i t1 (- o) RSilence.
@@ -23,6 +26,8 @@ Definition C09corr (c : C09case) : bool :=
   | EditRT t o out => res_eqb itier_eqb (edit_rt t o) out
   | AppendI A B out => res_eqb itier_eqb (append_i A B) out
   | AppendP A B out => res_eqb ptier_eqb (append_p A B) out
+  | TgEditC g o m out => res_eqb tg_eqb (tg_edit g o m) out
+  | TgAppendC A B only out => res_eqb tg_eqb (tg_append A B only) out
   end.
 
 Definition leaves_span_i (t : itier) (o : Z) : bool :=
@@ -92,6 +97,48 @@ Definition append_p_oracle (A B : ptier) (out : res ptier) : bool :=
       && (pmin t' =? pmin A) && (pmax t' =? pmax A + pmax B)
   end.
 
+(* Textgrid.editTimestamps: same tiers in the same order, each edited on its own (empty tiers kept) *)
+Fixpoint forall2b {A B} (f : A -> B -> bool) (l : list A) (m : list B) : bool :=
+  match l, m with
+  | [], [] => true
+  | x :: l', y :: m' => f x y && forall2b f l' m'
+  | _, _ => false
+  end.
+
+Definition tg_edit_oracle (g : tg) (o : Z) (mode : repmode) (out : res tg) : bool :=
+  match out with
+  | Ok g' =>
+      forall2b (fun t t' => if tents_empty t then tier_eqb t t' else res_eqb tier_eqb (edit_tier t o RSilence) (Ok t'))
+               (tiers g) (tiers g')
+  | Err e =>
+      (* only the error mode may refuse, and only when something leaves a span *)
+      match mode with RError => true | _ => false end
+  end.
+
+(* Textgrid.appendTextgrid: the tier set and order per onlyMatchingNames; B's entries moved by A's end *)
+Definition expect_append_tier (A B : tg) (mn ma mx : Z) (n : text) : option tier :=
+  match find_tier n (tiers A), find_tier n (tiers B) with
+  | Some (TI a), Some (TI b) => Some (TI (mkIT n (ients a ++ map (shift ma) (ients b)) mn mx))
+  | Some (TP a), Some (TP b) => Some (TP (mkPT n (isortp (pents a ++ map (pshift ma) (pents b))) mn mx))
+  | Some t, None => Some t                                   (* a tier of A alone is carried over as it is *)
+  | None, Some (TI b) => Some (TI (mkIT n (map (shift ma) (ients b)) mn mx))
+  | None, Some (TP b) => Some (TP (mkPT n (map (pshift ma) (pents b)) mn mx))
+  | _, _ => None
+  end.
+
+Definition tg_append_oracle (A B : tg) (only : bool) (out : res tg) : bool :=
+  match out, tgmin A, tgmax A, tgmax B with
+  | Ok g', Some mn, Some ma, Some mb =>
+      let na := names A in let nb := names B in
+      let wanted := if only then filter (fun n => name_in n nb) na
+                    else na ++ filter (fun n => negb (name_in n na)) nb in
+      list_eqb text_eqb (names g') wanted
+      && forallb (fun t' => match expect_append_tier A B mn ma (ma + mb) (tname t') with
+                            | Some t => tier_eqb t t' | None => false end) (tiers g')
+      && option_eqb Z.eqb (tgmin g') (Some mn) && option_eqb Z.eqb (tgmax g') (Some (ma + mb))
+  | _, _, _, _ => false
+  end.
+
 Definition C09oracle (c : C09case) : bool :=
   match c with
   | EditI t o m out pr => edit_i_oracle t o m out pr
@@ -99,6 +146,8 @@ Definition C09oracle (c : C09case) : bool :=
   | EditRT t o out => edit_rt_oracle t o out
   | AppendI A B out => append_i_oracle A B out
   | AppendP A B out => append_p_oracle A B out
+  | TgEditC g o m out => tg_edit_oracle g o m out
+  | TgAppendC A B only out => tg_append_oracle A B only out
   end.
 
 Definition C09hyp (c : C09case) : bool :=
@@ -107,4 +156,5 @@ Definition C09hyp (c : C09case) : bool :=
   | EditP t _ _ _ _ => wf_ptierb t
   | AppendI A B _ => wf_itierb A && wf_itierb B && (imin A <=? imax A) && (0 <=? imax A) && (0 <=? imin B) && (0 <=? imax B)
   | AppendP A B _ => wf_ptierb A && wf_ptierb B
+  | TgEditC _ _ _ _ | TgAppendC _ _ _ _ => true
   end.
